@@ -87,7 +87,7 @@ def op_strategy(kind: str, cfg: dict):
     if kind == "copy":
         return st.fixed_dictionaries({"op": st.just("copy"), "who": idx, "to": st.one_of(st.none(), idx),
                                       "children": st.booleans(), "clear": st.booleans(),
-                                      "ws": st.sampled_from([0, 0, 1])})
+                                      "ws": st.sampled_from([0, 0, 1]), "twice": st.sampled_from([False, False, True])})
     if kind == "remove":
         return st.fixed_dictionaries({"op": st.just("remove"), "who": idx,
                                       "via": st.sampled_from(["ws", "parent"]), "ws": st.sampled_from([0, 0, 0, 1])})
@@ -118,7 +118,9 @@ def op_strategy(kind: str, cfg: dict):
                                       "source": st.sampled_from(["fresh", "live_same", "live_other", "removed", "live_same"]),
                                       "who": idx, "parent": idx, "name": name,
                                       "form": st.sampled_from(["uuid", "uuid", "str", "braced"])})
-    if kind in ("reopen", "gc", "release", "observe"):
+    if kind == "reopen":
+        return st.fixed_dictionaries({"op": st.just("reopen"), "same": st.sampled_from([False, False, True])})
+    if kind in ("gc", "release", "observe"):
         return st.just({"op": kind})
     if kind == "hold":
         return st.fixed_dictionaries({"op": st.just("hold"), "who": idx})
@@ -132,7 +134,7 @@ DEFAULT_CFG = {
     "data_kinds": ["float", "int", "bool", "ref", "text"],
     "weights": {"group": 3, "object": 5, "data": 6, "values": 3, "rename": 2, "flag": 2, "move": 4, "copy": 4,
                 "remove": 4, "pg_add": 4, "pg_remove_props": 2, "pg_delete": 1, "metadata": 1, "file": 1,
-                "comment": 0, "create_uid": 1, "remove_many": 1, "reopen": 3, "gc": 2, "hold": 1, "release": 1, "observe": 1},
+                "comment": 1, "create_uid": 1, "remove_many": 1, "reopen": 3, "gc": 2, "hold": 1, "release": 1, "observe": 1},
     "ws2": True,
     "prefix": [],
 }
@@ -190,6 +192,10 @@ class World:
 
     def of_kind(self, *kinds):
         return [u for u in self.nodes if self.kind[u] in kinds]
+
+    def containers(self):
+        """Groups that can receive ordinary groups / objects (drillhole groups take only concatenated holes)."""
+        return [u for u in self.of_kind("group") if "Drillhole" not in self.nodes[u]["cls"]]
 
     def descendants(self, uid):
         out = []
@@ -389,10 +395,10 @@ class TreeRun:
 
     # ------------------------------------------------------------------ reopen
     def op_reopen(self, op):
-        self.do_reopen(final=False)
+        self.do_reopen(final=False, same=bool(op.get("same")))
         return True
 
-    def do_reopen(self, final):
+    def do_reopen(self, final, same=False):
         from geoh5py.workspace import Workspace
 
         self.held.clear()
@@ -417,7 +423,12 @@ class TreeRun:
                     break
             if "C05" in self.props and wd is self.worlds[0] and self.removed:
                 self.check_raw_absent(wd)
-            fresh = Workspace(wd.path)
+            if same:
+                wd.ws.open()  # close() / open() on the same Workspace object
+                fresh = wd.ws
+                self.res.label("reopen:same-object")
+            else:
+                fresh = Workspace(wd.path)
             wd.ws = fresh
             after = apisnap(fresh, with_listings=True)
             # (1) round trip: what the live workspace showed == what a fresh opening yields
@@ -475,7 +486,7 @@ class TreeRun:
 
     def op_group(self, op):
         wd = self.w
-        parent_uid = self.pick(wd.of_kind("group"), op["parent"])
+        parent_uid = self.pick(wd.containers(), op["parent"])
         parent = wd.entity(parent_uid)
         cls = F.get_class(op["cls"])
         self.parents.add(parent_uid)
@@ -519,7 +530,7 @@ class TreeRun:
         if kind == "data":
             parent_uid = self.pick([o for o in wd.of_kind("object") if wd.nodes[o]["cls"] != "Drillhole"], op["parent"])
         else:
-            parent_uid = self.pick(wd.of_kind("group"), op["parent"])
+            parent_uid = self.pick(wd.containers(), op["parent"])
         if parent_uid is None:
             return False
         parent = wd.entity(parent_uid)
@@ -669,7 +680,7 @@ class TreeRun:
 
     def op_object(self, op):
         wd = self.w
-        parent_uid = self.pick(wd.of_kind("group"), op["parent"])
+        parent_uid = self.pick(wd.containers(), op["parent"])
         parent = wd.entity(parent_uid)
         cls = F.get_class(op["cls"])
         kwargs = F.object_kwargs(op["cls"], op["geom"])
@@ -807,7 +818,8 @@ class TreeRun:
 
     def op_rename(self, op):
         wd = self.w
-        cands = [u for u in wd.nodes if u != wd.root]
+        # the name "UserComments" IS the type marker of comments in the format: not renamed
+        cands = [u for u in wd.nodes if u != wd.root and wd.nodes[u]["cls"] != "CommentsData"]
         uid = self.pick(cands, op["who"])
         if uid is None:
             return False
@@ -872,7 +884,37 @@ class TreeRun:
         return True
 
     def op_comment(self, op):
-        return False
+        """add_comment on a group or object: creates the UserComments data or appends to it."""
+        wd = self.w
+        cands = [u for u in wd.nodes if u != wd.root and wd.kind[u] in ("group", "object")]
+        uid = self.pick(cands, op["who"])
+        if uid is None:
+            return False
+        ent = wd.entity(uid)
+        self.parents.add(uid)
+        existing = [c for c in wd.nodes[uid]["children"] if wd.nodes.get(c, {}).get("cls") == "CommentsData"]
+        if existing:
+            self.targets.add(existing[0])
+        self.call("CommentsData", ent.add_comment, op["text"], author="vp")
+        comments = ent.comments
+        if comments is None:
+            self.fail("C01", "comment-not-added", "comment", wd.nodes[uid]["cls"], "", "add_comment left no comments data")
+            return True
+        cuid = str(comments.uid)
+        node = snap_entity(comments)
+        values = comments.values or []
+        if not values or values[-1].get("Text") != op["text"] or values[-1].get("Author") != "vp":
+            self.fail("C01", "created-values", "comment", "CommentsData", "", f"last comment {values[-1:]} expected text {op['text']!r}")
+        if cuid in wd.nodes:
+            if len(values) != len(wd.nodes[cuid].get("values") or []) + 1:
+                self.fail("C01", "comment-count", "comment", "CommentsData", "", f"{len(values)} comments after appending to {len(wd.nodes[cuid].get('values') or [])}")
+            wd.nodes[cuid]["values"] = node["values"]  # the date is chosen by the library: observed
+        else:
+            self.check_created(wd, cuid, node, "CommentsData", uid, "UserComments", "comment")
+            wd.adopt(cuid, node, "data")
+        self.touch()
+        del ent, comments
+        return True
 
     # ------------------------------------------------------------------ move
     def move_targets(self, wd, uid):
@@ -880,7 +922,7 @@ class TreeRun:
         node = wd.nodes[uid]
         banned = set([uid] + wd.descendants(uid))
         if kind in ("group", "object"):
-            return [g for g in wd.of_kind("group") if g not in banned and g != node["parent"]]
+            return [g for g in wd.containers() if g not in banned and g != node["parent"]]
         assoc = node["association"].split(":")[1]
         src_count = self.element_count(wd, node["parent"], assoc)
         out = []
@@ -945,7 +987,7 @@ class TreeRun:
                 to = self.pick(targets, op["to"] or 0)
         else:
             banned = set([uid] + wd.descendants(uid)) if not cross else set()
-            targets = [g for g in twd.of_kind("group") if g not in banned]
+            targets = [g for g in twd.containers() if g not in banned]
             if op["to"] is None and not cross:
                 to = wd.nodes[uid]["parent"]
             else:
@@ -969,6 +1011,12 @@ class TreeRun:
         if cross:
             self.stats["cross_copies"] += 1
         self.adopt_copy(wd, twd, uid, new, to, op["children"] if kind != "data" else False, cross)
+        if op.get("twice") and not self.stopped:
+            # the same copy again: now the identifiers are taken in the target (fresh ones must be chosen and mapped)
+            new = self.call(cls, src.copy, **kwargs)
+            if new is not None:
+                self.res.label("copy:twice" + (":cross" if cross else ""))
+                self.adopt_copy(wd, twd, uid, new, to, op["children"] if kind != "data" else False, cross)
         self.touch()
         del src, target, new
         return True
@@ -1121,6 +1169,8 @@ class TreeRun:
             del parent
         del ent
         gone = wd.drop(uid)
+        # "once the caller has dropped its own references": the harness drops what it held
+        self.held = [h for h in self.held if str(h.uid) not in gone]
         mode = ("lookup-first", "listing-first", "no-listing")[op["who"] % 3]
         if op["via"] == "parent" and not self.program.get("allow_known") and (
                 mode != "listing-first" or "C05" not in self.props):
